@@ -87,6 +87,7 @@ type W struct {
 	fninfo  map[*ssa.Function]*fnInfo
 	harnessFile string
 	nondets []*Term
+	nondetNames map[int]string
 	nondetPos map[string]string
 	clock   *Term
 	clockN  int
@@ -108,6 +109,7 @@ type W struct {
 	spawnOverride map[string]int
 	spawnTrunc map[string]*Term
 	recoverFns map[*ssa.Function]bool
+	orderFirst []string
 }
 
 var debugYields = os.Getenv("GOBMC_DEBUG") != ""
@@ -357,8 +359,22 @@ func (w *W) run(root *ssa.Function) {
 	main := &Thread{w: w, id: 0, fn: FAlt{g: True, fn: root}, ops: map[int]*opState{}, spawned: True, key: mkKey(0, -1, 0, 0), name: "harness", truncated: False, finished: False}
 	w.threads = []*Thread{main}
 	for r := 0; r < w.R; r++ {
-		for i := 0; i < len(w.threads); i++ {
-			t := w.threads[i]
+		visited := map[int]bool{}
+		for {
+			// next unvisited goroutine: the harness first, then those named by -order, then discovery order
+			var t *Thread
+			for _, c := range w.threads {
+				if visited[c.id] {
+					continue
+				}
+				if t == nil || w.prio(c) < w.prio(t) {
+					t = c
+				}
+			}
+			if t == nil {
+				break
+			}
+			visited[t.id] = true
 			t.round = r
 			t.running = t.spawned
 			w.walkThread(t)
@@ -412,6 +428,10 @@ func (w *W) walkThread(t *Thread) {
 		if !w.observe {
 			w.crash(pG, "panic in package init")
 		}
+	}
+	if t.spawned.IsFalse() {
+		t.finished = False
+		return
 	}
 	fr := w.newFrame(t, t.fn, nil, t.key)
 	_, retG, panicG, _ := w.execFunc(t, fr, t.args, t.spawned)
@@ -539,4 +559,16 @@ func (w *W) recordAccess(t *Thread, o opSpec) {
 func (o opSpec) with(eff func(exec *Term) Value) opSpec {
 	o.effect = eff
 	return o
+}
+
+func (w *W) prio(t *Thread) int {
+	if t.id == 0 {
+		return -1
+	}
+	for i, p := range w.orderFirst {
+		if p != "" && strings.Contains(t.name, p) {
+			return i
+		}
+	}
+	return len(w.orderFirst) + 1
 }
